@@ -187,6 +187,25 @@ func runFunc(eng *Engine, key, tier string, verbose bool) int {
 		return 2
 	}
 	eng.resolveGuards()
+	views := []string{""}
+	if con != nil {
+		views = con.Views()
+	}
+	rc := 0
+	for _, view := range views {
+		if view != "" {
+			fmt.Printf("--- view %s\n", view)
+		}
+		eng.curView = view
+		if r := runFuncView(eng, key, con, lemma, tier, verbose); r != 0 {
+			rc = r
+		}
+		eng.curView = ""
+	}
+	return rc
+}
+
+func runFuncView(eng *Engine, key string, con, lemma *Contract, tier string, verbose bool) int {
 	t0 := time.Now()
 	var res *FuncResult
 	if con != nil {
